@@ -43,7 +43,9 @@ def decode_command_string(bcp_string) -> Tuple[str, dict]:
     """
     bcp_command = urlsplit(bcp_string, allow_fragments=False)
 
-    if bcp_command.query[0:5] == "json=":
+    # The JSON form is 'json=' followed by an unquoted JSON object. A url-style parameter which happens to be
+    # called 'json' never starts with '{' (its value is percent-encoded).
+    if bcp_command.query[0:6] == "json={":
         kwargs = json.loads(bcp_command.query[5:])
         return bcp_command.path, kwargs
 
